@@ -107,6 +107,13 @@ uint64_t nPrefixNeedMore = 0, nPrefixSame = 0, nPrefixRejected = 0;
 std::string check(const std::string &what, const Bytes &input, Class cls, size_t headerLen, const Res *want, const std::string &malformedClass) {
     const Res full = parse(input);
     std::string out;
+    {
+        static uint64_t nChecks = 0;
+        ++nChecks;
+        const unsigned sh = V::S().ctx.shard;
+        if ((cls == WellFormed && nChecks % (sh % 2 ? 977 : 3001) == 5) || (cls != WellFormed && (nChecks + sh) % 7 == 0))
+            V::sample(what + (cls == WellFormed ? " [well-formed, " + std::to_string(input.size()) + " octets, every prefix tried]" : " [" + malformedClass + "]") + " => " + full.str());
+    }
     if (cls == WellFormed) {
         Res w = *want; w.kind = Res::Parsed; w.size = headerLen;
         if (!full.same(w)) {
